@@ -76,6 +76,15 @@ func HarnessC16Alloc(st any) {
 	path := "/" + sym.String("path", lp-1)
 	sym.Assume(!hasEmptySegment(path))
 	req := &http.Request{Method: method, Host: host, URL: &url.URL{Path: path}}
+	if sym.ParamOr("raw", 0) == 1 {
+		for i := 0; i < len(path); i++ {
+			sym.Assume(sym.ByteIn(path[i], rawPathBytes))
+		}
+		dec, ok := pctDecode(path)
+		sym.Assume(ok && dec != path)
+		req.URL.Path, req.URL.RawPath = dec, path
+		sym.Cover("percent-encoded matching request")
+	}
 
 	// one round = the interleaved concrete requests, then the request under test
 	round := func() {
